@@ -382,7 +382,7 @@ Proof.
   set (T := to_overlay cf cid items base).
   assert (HTq : mqueue T = []) by (unfold T; rewrite to_overlay_queue; exact Hq).
   rewrite HTq. cbn [app].
-  set (c := {| mc_id := cid; mc_items := MRootSet k root :: items; mc_check := false; mc_used := locked_pending s |}).
+  set (c := {| mc_id := cid; mc_first := cid; mc_items := MRootSet k root :: items; mc_check := false; mc_used := locked_pending s |}).
   set (S := {| roots := roots T; nodes := nodes T; nrc := nrc T; kv := kv T; rov := rov T; aov := aov T; kvov := kvov T;
                mqueue := [c]; mcid := cid; next_id := next_id T; locked := locked T; readers := readers T; to_deref := to_deref T |}).
   destruct (mprocess_single cf S c eq_refl eq_refl) as [fuel Hm]. cbn zeta. rewrite Hm. clear Hm. subst c S. cbn [mc_id mc_items].
